@@ -25,6 +25,7 @@ type profile struct {
 	fragMess  bool // fragments may be swapped / duplicated / dropped
 	noSynFin  bool // SYN / FIN may be absent
 	sections  bool // pcapng captures have 2..3 sections
+	snap      bool // records may be cut by the snap length (incl_len < orig_len)
 	big       bool
 }
 
@@ -289,6 +290,9 @@ func fragment(r *hlib.Rand, k *kase, p pkt, mess bool) ([]pkt, string) {
 
 func perturb(r *hlib.Rand, k *kase, tl []pkt, pf profile) ([]pkt, []string) {
 	var notes []string
+	for i := range tl {
+		tl[i].cut = cutNone
+	}
 	n := 0
 	if pf.perturb > 0 {
 		n = r.Intn(pf.perturb + 1)
@@ -309,6 +313,9 @@ func perturb(r *hlib.Rand, k *kase, tl []pkt, pf profile) ([]pkt, []string) {
 		}
 		if pf.edgeSwap {
 			kinds = append(kinds, "finfirst")
+		}
+		if pf.snap {
+			kinds = append(kinds, "snap", "snap")
 		}
 		if len(kinds) == 0 {
 			break
@@ -357,6 +364,32 @@ func perturb(r *hlib.Rand, k *kase, tl []pkt, pf profile) ([]pkt, []string) {
 			i := cand[r.Intn(len(cand))]
 			tl[i-1], tl[i] = tl[i], tl[i-1]
 			notes = append(notes, "finfirst")
+		case "snap":
+			// the record is cut by the snap length: inside the payload, the TCP header, the IP header or the link header
+			i := r.Intn(len(tl))
+			if tl[i].frag || tl[i].cut != cutNone {
+				continue
+			}
+			hdr := 20
+			if k.conns[tl[i].conn].v6() {
+				hdr = 40
+			}
+			switch c := r.Intn(8); {
+			case c == 0:
+				tl[i].cut = cutLink
+				notes = append(notes, "snaplink")
+			case c == 1:
+				tl[i].cut = r.Range(0, hdr-1)
+				notes = append(notes, "snapip")
+			case c == 2:
+				tl[i].cut = r.Range(hdr, hdr+19)
+				notes = append(notes, "snaptcp")
+			case tl[i].n > 0:
+				tl[i].cut = hdr + 20 + r.Range(0, tl[i].n-1)
+				notes = append(notes, "snappayload")
+			default:
+				continue
+			}
 		case "omit":
 			i := r.Intn(len(tl))
 			if !isData(tl[i]) {
@@ -366,7 +399,7 @@ func perturb(r *hlib.Rand, k *kase, tl []pkt, pf profile) ([]pkt, []string) {
 			notes = append(notes, "omit")
 		case "frag":
 			i := r.Intn(len(tl))
-			if tl[i].frag || tl[i].n == 0 || tl[i].n > 1460 || k.conns[tl[i].conn].v6() {
+			if tl[i].frag || tl[i].n == 0 || tl[i].n > 1460 || k.conns[tl[i].conn].v6() || tl[i].cut != cutNone {
 				continue
 			}
 			fr, note := fragment(r, k, tl[i], pf.fragMess)
